@@ -52,6 +52,9 @@ import (
 const (
 	kQuiescent envlab.Kind = "quiescent"
 	kRunEvent  envlab.Kind = "run_event"
+	kCaseInfo  envlab.Kind = "case_info"
+
+	staleUserRN = "42" // what a pasted variable dump would carry
 )
 
 type Step struct {
@@ -74,8 +77,13 @@ type C10Case struct {
 	// Real: START_ACTIVITY / STOP_ACTIVITY (and plain GO_ERROR) are the REAL transitions of the core
 	// (environment.NewStartActivityTransition etc.); the lab plays the task manager and answers their
 	// task command with success or with the scripted "tasks failed to transition".
-	Real  bool   `json:"real,omitempty"`
-	Steps []Step `json:"steps"`
+	Real bool `json:"real,omitempty"`
+	// UserRN (real walks only): the environment is created with the USER variable(s) run_number and/or
+	// runNumber preset to a stale value. User variables outrank the root variable the core sets, so the
+	// hooks of such an environment never see the allocated number (that is C14's rule, not judged); the
+	// task command arguments and the Ev_RunEvents, which the core fills from the allocated number, are.
+	UserRN []string `json:"user_rn,omitempty"`
+	Steps  []Step   `json:"steps"`
 }
 
 // ---------------------------------------------------------------- generation
@@ -167,6 +175,9 @@ func illegalStep(r *rand.Rand, src string) Step {
 func genC10(c *vlib.Ctx, idx int64) C10Case {
 	r := c.SubRand(idx)
 	cs := C10Case{Prop: "C10", Idx: idx, Real: realTransitions && idx%5 < 3}
+	if cs.Real && idx%5 == 1 {
+		cs.UserRN = [][]string{{vRN}, {vRN2}, {vRN, vRN2}}[(idx/5)%3]
+	}
 	cs.Steps = append(cs.Steps, plainStep("DEPLOY", "STANDBY"), plainStep("CONFIGURE", "DEPLOYED"))
 	state := "CONFIGURED"
 	n := 1 + r.Intn(8)
@@ -281,7 +292,7 @@ func c10Fingerprint(cs C10Case) string {
 	for _, s := range cs.Steps {
 		fmt.Fprintf(&sb, "%s/%v/%v/%v;", s.Op, s.Force, s.Fail, s.FailBody)
 	}
-	fmt.Fprintf(&sb, "real=%v", cs.Real)
+	fmt.Fprintf(&sb, "real=%v/%v", cs.Real, cs.UserRN)
 	return sb.String()
 }
 
@@ -376,7 +387,7 @@ func makeTransition(lab *envlab.Lab, sc *c10Script, real bool, op string, body f
 func (s *c10Script) taskCommand(lab *envlab.Lab) func(*task.TaskmanMessage) error {
 	return func(m *task.TaskmanMessage) error {
 		args := map[string]string{}
-		for _, k := range []string{"runNumber", vSOSOR, vSOEOR} {
+		for _, k := range []string{"runNumber", vRN, vSOSOR, vSOEOR} {
 			if v, ok := m.GetArguments()[k]; ok {
 				args[k] = v
 			}
@@ -416,11 +427,21 @@ const slowHook = 1100 * time.Microsecond // > 1 ms: the millisecond clock of the
 
 func execC10(w *envlab.World, cs C10Case) (*c10Outcome, error) {
 	t0 := time.Now()
-	lab, err := w.NewLab(probeSet(), nil)
+	var userVars map[string]string
+	if len(cs.UserRN) > 0 {
+		userVars = map[string]string{}
+		for _, k := range cs.UserRN {
+			userVars[k] = staleUserRN
+		}
+	}
+	lab, err := w.NewLab(probeSet(), userVars)
 	if err != nil {
 		return nil, err
 	}
 	defer lab.Close()
+	if len(cs.UserRN) > 0 {
+		lab.Add(envlab.Record{Kind: kCaseInfo, Msg: "user run number variables"})
+	}
 	if os.Getenv("VERIF_TIMING") != "" {
 		defer func(t1 time.Time) {
 			fmt.Fprintf(os.Stderr, "timing: newlab=%v walk(%d steps)=%v\n", t1.Sub(t0), len(cs.Steps), time.Since(t1))
@@ -659,6 +680,36 @@ type c10Oracle struct {
 	// arguments stay with a task until a later command overwrites them
 	taskView map[string]string
 	prevEnd  map[string]bool // end-of-run values of earlier brackets
+	// shadow: the environment carries user variables run_number / runNumber: what the hooks see of the
+	// run number is the user's value, by the precedence rule; the run number is then followed through
+	// the Ev_RunEvents and the task command arguments only
+	shadow bool
+}
+
+// shadowVars: in a shadow walk the hooks' view of the run number is replaced by `rn` (what the bracket
+// automaton expects at this point), which leaves its timestamp rules in force and its run number rules
+// idle.
+func (o *c10Oracle) shadowVars(vars map[string]string, rn string) map[string]string {
+	if !o.shadow {
+		return vars
+	}
+	out := map[string]string{}
+	for k, v := range vars {
+		out[k] = v
+	}
+	delete(out, vRN)
+	delete(out, vRN2)
+	if rn != "" {
+		out[vRN], out[vRN2] = rn, rn
+	}
+	return out
+}
+
+func (o *c10Oracle) phaseRN() string {
+	if o.br == nil || o.br.phase == "gone" {
+		return ""
+	}
+	return o.br.N
 }
 
 var tsKinds = []string{vEOSOR, vSOEOR, vEOEOR}
@@ -685,6 +736,8 @@ func checkC10(recs []envlab.Record) ([]viol, map[string]int64) {
 			if r.Snap != nil && strings.HasPrefix(r.Msg, "task command") {
 				o.taskCommand(r)
 			}
+		case kCaseInfo:
+			o.shadow = true
 		case kQuiescent:
 			o.cnt["quiescent_snapshots"]++
 			o.quiescent(r)
@@ -710,15 +763,21 @@ func (o *c10Oracle) snap(r envlab.Record) {
 	pos := m + "/" + wSign(w)
 	if o.occ.Event == "START_ACTIVITY" && o.occ.Src == "CONFIGURED" {
 		if m == "before_START_ACTIVITY" && w < 0 {
+			r.Snap = o.shadowVars(r.Snap, "")
 			o.pre(r, pos)
 			return
 		}
 		if o.br == nil || o.br.k != o.occ.K {
+			n := ""
+			if o.lastStart.K == o.occ.K {
+				n = o.lastStart.N
+			}
+			r.Snap = o.shadowVars(r.Snap, n)
 			o.open(r, m, w, pos)
 			return
 		}
 	}
-	o.in(r, r.Snap, pos)
+	o.in(r, o.shadowVars(r.Snap, o.phaseRN()), pos)
 }
 
 // pre: negative-weight before_START_ACTIVITY hook: nothing of the new run yet.
@@ -875,6 +934,19 @@ func (o *c10Oracle) taskCommand(r envlab.Record) {
 	switch {
 	case o.occ.Event == "START_ACTIVITY" && b.k == o.occ.K && b.phase == "starting":
 		o.cnt["task_side_checks_at_start"]++
+		// the number the tasks are started with is the one the environment holds for this run
+		// (the Ev_RunEvent START_ACTIVITY/STARTED of this start carries it)
+		if o.lastStart.K == o.occ.K && o.lastStart.N != "" {
+			o.cnt["task_side_run_number_checks"]++
+			if o.shadow {
+				o.cnt["task_side_run_number_checks_with_user_var"]++
+			}
+			for _, k := range []string{"runNumber", vRN} {
+				if v, pushed := r.Snap[k]; pushed && v != o.lastStart.N {
+					o.hit(r, "RN-MISMATCH/task-args/"+k, fmt.Sprintf("the START_ACTIVITY command carries %s=%q but the environment holds run number %s for this run (Ev_RunEvent START_ACTIVITY/STARTED)", k, v, o.lastStart.N))
+				}
+			}
+		}
 		if hadEnd {
 			o.cnt["task_side_checks_at_restart_after_stop"]++
 		}
@@ -956,7 +1028,7 @@ func (o *c10Oracle) endOcc(r envlab.Record) {
 }
 
 func (o *c10Oracle) quiescent(r envlab.Record) {
-	o.in(r, r.Snap, "quiescent")
+	o.in(r, o.shadowVars(r.Snap, o.phaseRN()), "quiescent")
 	if o.justEnded == "forced-error" && r.State != "DONE" {
 		// forced move to ERROR (optional workload): a teardown may still complete the bracket
 		return
@@ -1023,6 +1095,9 @@ func c10Total(tier string) int {
 func countC10Case(c *vlib.Ctx, cs C10Case, out *c10Outcome) {
 	c.Count("walks", 1)
 	c.Count("steps", int64(len(out.Results)))
+	if len(cs.UserRN) > 0 {
+		c.Count("walks_with_user_run_number_variable", 1)
+	}
 	if cs.Real {
 		c.Count("walks_with_real_transitions", 1)
 		for i := range out.Results {
